@@ -27,8 +27,10 @@ EXPLANATION = (
     "ascending placement order, list order breaking ties, volume first, with the value 1/eps, 1/mu (matrix "
     "inverse in the 9-component tier) or sigma*c*dt/courant of each object's own tensor, component count = widest "
     "tier any material needs, scalar 1 for a non-magnetic scene, no conductivity array for a lossless scene.  "
-    "Indicator algebra makes the comparison exact for every overlap pattern at once.  Not decided: multi-material "
-    "objects' voxel masks (C43) and sub-pixel smoothing."
+    "Indicator algebra makes the comparison exact for every overlap pattern at once.  Shaped (multi-material) objects: "
+    "get_material_mapping of every single-material shape over all dictionary insertion orders (R28.8) and the "
+    "placement loop's multi-material branch on a two-cell object with symbolic mask fractions (R28.9).  Not decided: "
+    "the voxel masks themselves (C43) and sub-pixel smoothing."
 )
 
 INIT = "fdtdx.fdtd.initialization"
@@ -458,4 +460,4 @@ def run(ctx):
         raise AnalysisError(err)
     ctx.require_count("C28", len(ctx.obligations), 50)
     ctx.trusted_base += ["sa/ndarr.py indicator algebra for .at[region].set on symbolic regions", "prefix slicing of _init_arrays at the end of its placement loop", "models of create_named_sharded_matrix (zeros) and sharding_preserving_set (.at[].set)"]
-    ctx.assume("uniform-material objects only (multi-material voxel masks are C43's subject); no dispersion, no sub-pixel smoothing")
+    ctx.assume("whole-scene painting with uniform-material objects; the multi-material branch on a two-cell object, isotropic tier (multi-material voxel masks are C43's subject); no dispersion, no sub-pixel smoothing")
